@@ -145,6 +145,13 @@ Definition observe_key (e : ep) (r : msg) (b : blk) (sent : option msg) : ep * Z
     end
   else (e, mtok r, true).
 
+(* repaired: asking for block [num] of a response (Block2) with a body-less copy of the request [sent] is
+   refused when num = 0 and the request is not a GET / DELETE: for a server that no longer holds the
+   response that message is a new request without its body *)
+Definition refuse_restart (isb1 : bool) (num : Z) (sent : option msg) : bool :=
+  negb isb1 && (num =? 0) &&
+  match sent with Some sr => negb ((mcode sr =? GET) || (mcode sr =? DELETE)) | None => false end.
+
 Section Handle.
   (* the application behind [next]: token of the wire message, delivered message -> response set on w *)
   Variable app : Z -> msg -> option msg.
@@ -186,6 +193,11 @@ Section Handle.
           else
             let szx := Z.min szx0 maxszx in
             let psize := blen (mbody cm') in
+            (* repaired: the response of a request other than GET / DELETE is never fetched again from
+               block 0 (the buffer is empty: a block of another transfer met no state, or the ETag
+               changed); error, the reassembly entry is released by the error path *)
+            if refuse_restart isb1 (psize / size szx) sent then (with_receiving e2 (tdel (receiving e2) key), Fail, [])
+            else
             let sm :=
               if isb1 then
                 {| mcode := Continue; mtok := key; mb1 := Some {| bszx := szx; bnum := bnum b; bmore := bmore b |};
